@@ -326,7 +326,8 @@ def check_binary(ctx, r, n):
             _, params, labels, laws = c
             pf = b2f(int(w[1]))
             for a, b in ((0, 1), (1, 0)):
-                compare_law(ctx, "binary.law", params, laws[labels[a]], {labels[a]: 1 - pf, labels[b]: pf})
+                compare_law(ctx, "binary.law", params, laws[labels[a]], {labels[a]: 1 - pf, labels[b]: pf},
+                            extra_unc=4 * 2.0 ** -52)        # rounding of u * (e^eps + 1) at the threshold
     ctx.sample({"family": "Binary", "params": cases[-1][1], "law_value0": cases[-1][3][cases[-1][2][0]].brief()})
 
 
@@ -462,9 +463,17 @@ def check_geometric(ctx, r, n):
         us += [0.5 + sg * r.loguniform(1e-15, 0.4) for sg in (1, -1, 1, -1)]
         us += [r.choice([0.0, CELL, 1 - CELL, 0.25, 0.75])]
         us = [u for u in us if 0.0 <= u < 1.0 and u != 0.5]
+        # GeometricFolded with a half-integer (float) bound folds in FLOAT arithmetic (int - float -> float), which loses
+        # the low bits of a noisy value beyond 2^53, whereas the model folds exactly on integers (as Python does for
+        # integer bounds): for such bounds outputs are compared only when |noisy value| < 2^51 (the rest is counted)
+        float_fold = v == "f" and any(isinstance(b, float) and abs(b) != INF for b in (c["lower"], c["upper"])) \
+            and s is not None and 40.0 / s + abs(x) + abs(xp) >= 2.0 ** 51
         for val in (x, xp):
             gu = [g for u in us for g in guard_us(u, 8)]
             gu = [0.25 if g == 0.5 else g for g in gu]
+            if float_fold:
+                lines.append(f"geom p {fl(eps)} {sens} {val} ninf pinf " + " ".join(fl(u) for u in gu))
+                cases.append(("noisy", c, val))
             lines.append(f"geom {v} {fl(eps)} {sens} {val} {bnd_tok(c['lower'] if c['lower'] is not None else -INF)} "
                          f"{bnd_tok(c['upper'] if c['upper'] is not None else INF)} " + " ".join(fl(u) for u in gu))
             cases.append(("out", c, val, us, [sc.at_u(u, val) for u in us]))
@@ -574,6 +583,7 @@ def _geom_compare(ctx, cases, outs):
     pmf_ctx = None
     post = {}
     atoms_ctx = None
+    noisy = None
     sample_done = False
     for idx, (cs, out) in enumerate(zip(cases, outs)):
         w = out.split()
@@ -581,12 +591,19 @@ def _geom_compare(ctx, cases, outs):
             ctx.disagree("geometric.driver", cs[1], out, None)
             continue
         kind, c = cs[0], cs[1]
+        if kind == "noisy":
+            noisy = [int(z) for z in w[1:]]
+            continue
         if kind == "out":
             _, _, val, us, impl = cs
+            noisy_now, noisy = noisy, None
             for i, u in enumerate(us):
                 trio = w[1 + 3 * i: 4 + 3 * i]
                 if len(set(trio)) != 1:
                     ctx.boundary_skipped += 1
+                    continue
+                if noisy_now is not None and abs(noisy_now[3 * i + 1]) >= 2 ** 51:
+                    ctx.count("fold_float_path_beyond_2^51_skipped")
                     continue
                 if isinstance(impl[i], str) or trio[1] == "none":
                     if not (isinstance(impl[i], str) and trio[1] == "none"):
@@ -886,7 +903,9 @@ def check_exponential(ctx, r, n, negative=False):
         if any(p != p for p in pmf):
             ctx.count("exp_nan_law_skipped")
             continue
-        compare_law(ctx, "exponential.law", {**c, "which": tag}, law, {i: p for i, p in enumerate(pmf)})
+        # the sampler's own cumulative sums carry float rounding of up to ~n ulp(1): an absolute allowance per atom
+        compare_law(ctx, "exponential.law", {**c, "which": tag}, law, {i: p for i, p in enumerate(pmf)},
+                    extra_unc=(len(pmf) + 2) * 2.0 ** -52)
         for i, u in enumerate(us):
             trio = sel[3 * i: 3 * i + 3]
             if len(set(trio)) != 1:
@@ -1264,7 +1283,8 @@ def cat_compare(ctx, family, cases, outs):
             inv = {v: k for k, v in ranks.items()}
             for i, d in enumerate(dom):
                 model = {inv[t]: rows[i * n + j] for j, t in enumerate(dom)}
-                compare_law(ctx, family + ".law", {**params, "value": inv[d]}, laws[inv[d]], model)
+                compare_law(ctx, family + ".law", {**params, "value": inv[d]}, laws[inv[d]], model,
+                            extra_unc=(n + 2) * 2.0 ** -52)      # rounding of the running sum `cum_prob` / of `u * Z`
         else:
             _, _, ranks, x, us, impl = cs
             w = out.split()
